@@ -1,1 +1,7 @@
 /- property theorems of C04 (only theorems + non-vacuity examples live here) -/
+import Got.Model.Cache
+import Got.Model.Sharding
+open Got.Model.CacheCore
+
+/-- a Load that finds a loading or fresh future (status good) creates no future and no job -/
+theorem C04_no_second_load_core : (loadDecide .good).create = false := rfl
